@@ -177,3 +177,51 @@ def suite(ctx, pid, oracles, gen_kwargs_list, count, max_n_enum=5, enum_limit=60
         p0, r0 = runs[len(runs) // 2]
         ctx.sample({'problem': p0.to_json(), 'status': r0['status'], 'results': [[s, S.enc_deriv(t)] for s, t in r0['results']][:2],
                     'pops': len(r0['pops'])})
+
+
+def float_order_suite(ctx, count):
+    """oracle only, on scores that are NOT exactly representable (float32 rounding is outside the
+    model): whatever the rounding does, the n-best list the real search returns must be in
+    non-increasing order of the scores it reports, and its derivations must be pairwise different.
+    Sentences over a fully ambiguous grammar (X X -> X) with per-token constant dependency rows, so
+    that many bracketings have the same real-valued score and differ only by rounding."""
+    import numpy
+    rng = ctx.rng
+    bad = 0
+    for k in range(count):
+        p = S.Problem()
+        p.n = rng.randint(3, 6)
+        p.T = rng.randint(1, 2)
+        p.roots = list(range(p.T))
+        p.nbest = rng.choice([3, 5, 10, 20])
+        p.pruning = 50
+        p.max_step = 20000
+        for x in range(p.T):
+            for y in range(p.T):
+                p.bin[(x, y)] = [(rng.randrange(p.T), True)]
+        if rng.random() < 0.3:
+            p.un[0] = [p.T - 1] if p.T > 1 else []
+        tag = numpy.array([[rng.uniform(-9, 0) for _ in range(p.T)] for _ in range(p.n)], dtype=numpy.float32)
+        if rng.random() < 0.7:
+            dep = numpy.array([[rng.uniform(-9, 0)] * (p.n + 1) for _ in range(p.n)], dtype=numpy.float32)
+        else:
+            dep = numpy.array([[rng.uniform(-9, 0) for _ in range(p.n + 1)] for _ in range(p.n)], dtype=numpy.float32)
+        tag = numpy.ascontiguousarray(tag)
+        dep = numpy.ascontiguousarray(dep)
+        pen = rng.choice([0.1, 0.3, 0.0])
+        res = S.run_cpp(p, trace=False, raw=(tag, dep, pen))
+        ctx.evaluations += 1
+        scores = [sc for sc, _ in res['results']]
+        desc = dict(n=p.n, T=p.T, nbest=p.nbest, tag=[[float(v) for v in r] for r in tag], dep=[[float(v) for v in r] for r in dep],
+                    penalty=pen, bin={f'{a},{b}': v for (a, b), v in p.bin.items()}, un=p.un, scores=[float.hex(s) for s in scores])
+        if any(a < b for a, b in zip(scores, scores[1:])):
+            i = next(i for i, (a, b) in enumerate(zip(scores, scores[1:])) if a < b)
+            ctx.fail(f'n-best results are not best first: result {i} has score {float.hex(scores[i])} but result {i + 1} has the '
+                     f'better score {float.hex(scores[i + 1])}', desc, fingerprint=['float-order'])
+            bad += 1
+        derivs = [d for _, d in res['results']]
+        if len(set(derivs)) != len(derivs):
+            ctx.fail('the same derivation is returned twice in one n-best list', desc, fingerprint=['float-distinct'])
+        if len(derivs) > 1:
+            ctx.nontrivial_add(('float', k))
+    ctx.extra['float_order_problems'] = count
